@@ -41,7 +41,7 @@ func (e seqEnv) rpc() *Rpc {
 		case 1:
 			r.Header.Headers = []*goatorepo.KeyValue{{Key: "k", Value: "v"}}
 		case 2:
-			r.Header.Headers = []*goatorepo.KeyValue{{Key: "k-bin", Value: "!!"}}
+			r.Header.Headers = []*goatorepo.KeyValue{{Key: "k-bin", Value: badBinValue()}}
 		}
 	}
 	if e.Body {
